@@ -94,7 +94,7 @@ type vfPartState struct {
 	// idempotence state: pid -> state
 	Producers map[int64]*vfPidState
 	// consumer side: stored units (raw bytes as a broker would hold them)
-	Units []vfStoredUnit
+	Units []vfsStoredUnit
 	HWM   int64 // high watermark = log end offset
 	LSO   int64 // last stable offset (read committed)
 	// aborted transactions index (consumer side)
@@ -107,7 +107,7 @@ type vfAbortedTxn struct {
 	LastOffset  int64 `json:"last"` // offset of the abort marker
 }
 
-type vfStoredUnit struct {
+type vfsStoredUnit struct {
 	First int64  // first offset covered (base offset)
 	Last  int64  // last offset covered (inclusive)
 	Bytes []byte // wire bytes as stored
@@ -166,6 +166,9 @@ type vfSim struct {
 	// metadata serving log for C15
 	metaServed []vfMetaServed
 	identOf    func(rec *vfsRecord) int // maps a record to the submitted message index (-1 unknown)
+	logs        map[string]*vfsLogModel // consumer side: "topic/part" -> stored units
+	fetchRounds int64                   // atomic: fetch-part answers produced (load-independent progress unit)
+	lastFetchOff map[string]int64       // newest fetch offset seen per "fetch/topic/part"
 }
 
 type vfMetaServed struct {
@@ -288,6 +291,12 @@ func (s *vfSim) awaitOcc(key string, n int, timeout time.Duration) bool {
 		t.Stop()
 	}
 	return true
+}
+
+func (s *vfSim) fetchOffsetOf(key string) int64 {
+	s.mu.Lock()
+	defer s.mu.Unlock()
+	return s.lastFetchOff[key]
 }
 
 func (s *vfSim) occOf(key string) int {
